@@ -76,10 +76,11 @@ def discard_of_a_bit(monitor, witness):
 def bits_left_of_bit(monitor, witness):
     """ prepare_bits renames the tket registers to make room at register
     bits[offset - 1] + 1 AND swaps the new wire in the post-processing, whose
-    domain it extends at the END: as soon as the new register is not the
-    highest one (a bit to its right, or registers out of wire order after an
-    earlier Measure / bit swap) domain order and register order disagree. """
-    return monitor in _EXPORT and has(witness, "bits_prepared_next_to_existing_bits")
+    domain it extends at the END: as soon as a live (not post-selected)
+    register is numbered at or above the new one, domain order and register
+    order disagree.  The harness replays the register numbering of the export
+    (circuit_facts) to flag exactly those preparations. """
+    return monitor in _EXPORT and has(witness, "bits_prepared_below_a_live_register")
 
 
 def counts_ignore_post_processing(monitor, witness):
@@ -168,34 +169,131 @@ def pool(rng):
         ("unsupported", g.Bits(1))]
 
 
-def layer_facts(left, box, right, seen_bra, seen_classical=False):
-    """ Which known-defect mechanisms a layer could trigger. """
-    c = _ENV["circuit"]
-    name = type(box).__name__
-    out = set()
-    if seen_classical and (
-            name == "Measure" and box.override_bits
-            or name == "Bits" and not box.is_dagger):
-        out.add("bit_register_operation_after_a_classical_gate")
-    if name == "Discard" and box.dom.count(c.bit):
-        out.add("discards_a_bit")
-    if name == "Bits" and not box.is_dagger\
-            and (right.count(c.bit) or left.count(c.bit)):
-        out.add("bits_prepared_next_to_existing_bits")
-    if name == "Swap" and box.dom == c.bit @ c.bit and seen_bra:
-        out.add("bit_swap_after_a_post_selection")
-    if seen_bra and (name == "Measure" or name == "Bits"):
-        out.add("post_selection_before_a_bit_is_created")
-    return out
+def circuit_facts(d):
+    """
+    Which known-defect mechanisms of to_tk / from_tk the circuit can trigger.
+    Follows the register bookkeeping of the export for classical bits (new
+    register numbers, renaming on preparation) closely enough to tell a Bits
+    preparation that lands on the highest register (fine) from one that does
+    not (known finding), so that only the latter is absorbed.
+    """
+    c, g = _ENV["circuit"], _ENV["gates"]
+    full = d.init_and_discard()
+    bits, n_total = [], 0
+    facts, seen_bra, seen_classical = set(), False, False
+    for left, box, right in full.layers:
+        name = type(box).__name__
+        off = left.count(c.bit)
+        if name == "Measure" and not box.override_bits:
+            for j in range(box.n_qubits):
+                bits.insert(off + j, n_total)
+                n_total += 1
+            if seen_bra:
+                facts.add("post_selection_before_a_bit_is_created")
+        elif name == "Measure":
+            if seen_classical:
+                facts.add("bit_register_operation_after_a_classical_gate")
+        elif name == "Bra":
+            n_total += len(box.dom)
+            seen_bra = True
+        elif name == "Bits" and not box.is_dagger:
+            k = len(box.cod)
+            if seen_classical:
+                facts.add("bit_register_operation_after_a_classical_gate")
+            if seen_bra:
+                facts.add("post_selection_before_a_bit_is_created")
+            start = n_total if not bits else 0 if off == 0 else (
+                bits[off - 1] + 1 if off - 1 < len(bits) else n_total)
+            if any(r >= start for r in bits):
+                facts.add("bits_prepared_below_a_live_register")
+            bits = [r + k if r >= start else r for r in bits]
+            bits[off:off] = list(range(start, start + k))
+            n_total += k
+        elif name == "Discard" and box.dom.count(c.bit):
+            facts.add("discards_a_bit")
+            nb = box.dom.count(c.bit)
+            bits = bits[:off] + bits[off + nb:]
+        elif name == "Swap" and box.dom == c.bit @ c.bit:
+            if seen_bra:
+                facts.add("bit_swap_after_a_post_selection")
+        elif isinstance(box, g.ClassicalGate):
+            seen_classical = True
+    return facts
+
+
+def scenario(rng):
+    """ Structured families aimed at the register bookkeeping of the export. """
+    c, g = _ENV["circuit"], _ENV["gates"]
+    Id, qubit, bit = c.Id, c.qubit, c.bit
+    one = [g.H, g.X, g.Y, g.Z, g.S, g.T, g.Rx(phase(rng)), g.Rz(phase(rng))]
+
+    def sprinkle(d, n):
+        for _ in range(n):
+            spots = [i for i in range(len(d.cod)) if d.cod[i:i + 1] == qubit]
+            if not spots:
+                break
+            i = rng.choice(spots)
+            d = d >> Id(d.cod[:i]) @ rng.choice(one) @ Id(d.cod[i + 1:])
+        return d
+
+    def two_qubit(d):
+        spots = [i for i in range(len(d.cod) - 1) if d.cod[i:i + 2] == qubit @ qubit]
+        if spots:
+            i = rng.choice(spots)
+            gate = rng.choice([g.CX, g.CZ, g.CRz(phase(rng)), g.SWAP])
+            d = d >> Id(d.cod[:i]) @ gate @ Id(d.cod[i + 2:])
+        return d
+    if rng.random() < .5:
+        # qubit swaps, then a preparation in the middle, then entangling gates
+        n = rng.randint(2, 3)
+        d = g.Ket(*[rng.randint(0, 1) for _ in range(n)])
+        d = sprinkle(d, rng.randint(0, 2))
+        for _ in range(rng.randint(1, 2)):
+            i = rng.randrange(n - 1)
+            d = d >> Id(i) @ g.SWAP @ Id(n - i - 2)
+        i = rng.randint(0, n)
+        d = d >> Id(i) @ g.Ket(rng.randint(0, 1)) @ Id(n - i)
+        for _ in range(rng.randint(1, 3)):
+            d = sprinkle(two_qubit(d), rng.randint(0, 1))
+        kinds = ["ket", "ket", "swap", "measure"]
+        m = len(d.cod)
+        keep = [rng.random() < .8 for _ in range(m)]
+        d = d >> Id(0).tensor(*[c.Measure() if k else c.Discard() for k in keep])
+        return d, kinds
+    # post-selections next to live bits, then classical preparations
+    n = rng.randint(2, 4)
+    d = sprinkle(g.Ket(*[rng.randint(0, 1) for _ in range(n)]), rng.randint(1, 3))
+    d = two_qubit(d)
+    roles = [rng.choice(["measure", "bra", "bra", "keep"]) for _ in range(n)]
+    if "measure" not in roles:
+        roles[rng.randrange(n)] = "measure"
+    if rng.random() < .5:          # live bit first, post-selections after it
+        roles.sort(key=lambda r: {"measure": 0, "bra": 1, "keep": 2}[r])
+    layer = Id(0).tensor(*[
+        c.Measure() if r == "measure" else g.Bra(rng.randint(0, 1)) if r == "bra"
+        else Id(1) for r in roles])
+    d = d >> layer
+    for _ in range(rng.randint(1, 2)):
+        if len(d.cod) >= 4:
+            break
+        spots = [i for i in range(len(d.cod) + 1)]
+        i = rng.choice(spots) if rng.random() < .5 else len(d.cod)
+        d = d >> Id(d.cod[:i]) @ g.Bits(*([0] * rng.choice([1, 1, 2]))) @ Id(d.cod[i:])
+    d = sprinkle(d, 1)
+    return d, ["ket", "ket", "measure", "bra", "bits"]
 
 
 def rand_circuit(rng, nboxes, clean, maxw=4):
     c = _ENV["circuit"]
+    if rng.random() < .3:
+        d, kinds = scenario(rng)
+        facts = circuit_facts(d)
+        if not (clean and facts) and len(d.cod) <= maxw:
+            return d, kinds, facts
     dom = c.Ty()
     for _ in range(rng.choice([0, 0, 0, 1, 2])):
         dom = dom @ (c.qubit if rng.random() < .7 else c.bit)
-    d, scan, kinds, facts, seen_bra = c.Id(dom), dom, [], set(), False
-    seen_classical = False
+    d, scan, kinds, facts = c.Id(dom), dom, [], set()
     for _ in range(nboxes):
         options = pool(rng)
         for _ in range(40):
@@ -209,15 +307,12 @@ def rand_circuit(rng, nboxes, clean, maxw=4):
             if not spots:
                 continue
             i = rng.choice(spots)
-            new = layer_facts(scan[:i], box, scan[i + n:], seen_bra, seen_classical)
+            candidate = d >> c.Id(scan[:i]) @ box @ c.Id(scan[i + n:])
+            new = circuit_facts(candidate)
             if clean and new:
                 continue
-            facts |= new
-            d = d >> c.Id(scan[:i]) @ box @ c.Id(scan[i + n:])
-            scan = d.cod
+            d, facts, scan = candidate, new, candidate.cod
             kinds.append(kind)
-            seen_bra = seen_bra or kind == "bra"
-            seen_classical = seen_classical or kind == "classical"
             break
     return d, kinds, facts
 
